@@ -1,1 +1,373 @@
-//! C07 harnesses (see /verif/tools/HARNESS_GUIDE.md).
+//! C07 — results are independent of input backend, output container and out-buffer path.
+//!
+//! Two families (DESIGN 3/C07):
+//!
+//! (a) `c07_acc_<container>_<Ns>` — accessor coherence. The logical sequence is a symbolic array
+//!     `xs: [T; N]` (N concrete); the container is built from it and then *every* accessor must
+//!     describe `xs`: `len()`/`is_empty()`, checked `get(i)` for all i < N and an `Err` for a symbolic
+//!     i >= N, unchecked `uget(i)`, `titer()` forward and `.rev()` (and that both end after N items),
+//!     `slice(a, b)` for symbolic 0 <= a <= b <= N read through the slice object's own accessors
+//!     (`util::Win`), and `try_as_slice()` whenever it answers `Some`.
+//!     Containers: Vec, [T; N], [T], VecDeque at ring offsets 0 / 1 (all offsets in the thorough tier),
+//!     Array1, ArrayView1 with steps 1, 2, -1 (3, -2 thorough), Arc<Vec>, OptIter over Vec<Option<i32>>.
+//!
+//! (b) `c07_e2e_*` — end-to-end differential witnesses: the same symbolic sequence in two input
+//!     containers, or the same call returned vs. written into a caller buffer of each output
+//!     container type, gives element-wise identical results. Driver equivalence itself is C02.
+//!
+//! Polars is outside the claim.
+use std::collections::VecDeque;
+use std::mem::MaybeUninit;
+use std::sync::Arc;
+
+use ndarray::{Array1, ArrayView1, s};
+use tea_core::prelude::*;
+use tea_map::MapValidBasic;
+use tea_rolling::{RollingValidCmp, RollingValidFeature};
+
+use crate::util::*;
+
+pub trait Elem: Copy + PartialEq + kani::Arbitrary + Default {}
+impl<T: Copy + PartialEq + kani::Arbitrary + Default> Elem for T {}
+
+/// vacuity flags collected over all N-cases of one harness
+#[derive(Default)]
+pub struct Fl {
+    pub tas_some: bool,
+    pub tas_none: bool,
+    pub inner_slice: bool,
+    pub empty_slice: bool,
+}
+
+/// len / get / uget / titer / titer().rev() all describe `x`.
+pub fn acc_view<T: Elem, V: Vec1View<T> + ?Sized, const N: usize>(v: &V, x: &[T; N]) {
+    assert!(v.len() == N, "len() is the logical length");
+    assert!(v.is_empty() == (N == 0), "is_empty() agrees with the logical length");
+    let mut i = 0;
+    while i < N {
+        match v.get(i) {
+            Ok(e) => assert!(e == x[i], "get(i) is logical element i"),
+            Err(e) => {
+                std::mem::forget(e); // TError's recursive drop glue is irrelevant here
+                assert!(false, "get(i) with i < len is Ok")
+            },
+        }
+        assert!(unsafe { v.uget(i) } == x[i], "uget(i) is logical element i");
+        i += 1;
+    }
+    let far: usize = kani::any();
+    kani::assume(far >= N);
+    let r = v.get(far);
+    let is_err = r.is_err();
+    std::mem::forget(r); // do not run TError's (recursive) drop glue under CBMC
+    assert!(is_err, "get(i) with i >= len is an error");
+    // forward iteration
+    let mut it = v.titer();
+    let mut i = 0;
+    while i < N {
+        assert!(it.next() == Some(x[i]), "titer() yields the logical sequence in order");
+        i += 1;
+    }
+    assert!(it.next().is_none(), "titer() ends after len items");
+    drop(it);
+    // backward iteration
+    let mut it = v.titer().rev();
+    let mut i = 0;
+    while i < N {
+        assert!(it.next() == Some(x[N - 1 - i]), "titer().rev() yields the logical sequence reversed");
+        i += 1;
+    }
+    assert!(it.next().is_none(), "titer().rev() ends after len items");
+}
+
+/// `try_as_slice()`, when offered, is the logical sequence.
+pub fn acc_tas<T: Elem, V: Vec1View<T> + ?Sized, const N: usize>(v: &V, x: &[T; N], fl: &mut Fl) {
+    match v.try_as_slice() {
+        Some(s) => {
+            fl.tas_some = true;
+            assert!(s.len() == N, "try_as_slice() has the logical length");
+            let mut i = 0;
+            while i < N {
+                assert!(s[i] == x[i], "try_as_slice() equals the logical sequence");
+                i += 1;
+            }
+        },
+        None => fl.tas_none = true,
+    }
+}
+
+/// `slice(a, b)` for symbolic 0 <= a <= b <= N, read through the slice object's own accessors.
+/// A macro because the slice type is a GAT of the backend.
+macro_rules! acc_slice {
+    ($v:expr, $x:expr, $N:expr, $fl:expr) => {{
+        let a: usize = kani::any();
+        let b: usize = kani::any();
+        kani::assume(a <= b && b <= $N);
+        let sl = Vec1View::slice($v, a, b).unwrap();
+        assert!(sl.wlen() == b - a, "slice(a, b) has b - a elements");
+        let mut j = 0;
+        while j < $N {
+            if j < b - a {
+                assert!(sl.wget(j) == $x[a + j], "slice(a, b) element j is logical element a + j");
+            }
+            j += 1;
+        }
+        if 0 < a && a < b && b < $N {
+            $fl.inner_slice = true;
+        }
+        if a == b {
+            $fl.empty_slice = true;
+        }
+    }};
+}
+
+/// Same law with the pairs 0 <= a <= b <= N enumerated by concrete loops instead of symbolic bounds: equally
+/// exhaustive, but ndarray / VecDeque slicing divides by the step and wraps ring indices, which is far cheaper for
+/// CBMC on constants.
+macro_rules! acc_slice_enum {
+    ($v:expr, $x:expr, $N:expr, $fl:expr) => {{
+        let mut a = 0usize;
+        while a <= $N {
+            let mut b = a;
+            while b <= $N {
+                let sl = Vec1View::slice($v, a, b).unwrap();
+                assert!(sl.wlen() == b - a, "slice(a, b) has b - a elements");
+                let mut j = 0;
+                while j < b - a {
+                    assert!(sl.wget(j) == $x[a + j], "slice(a, b) element j is logical element a + j");
+                    j += 1;
+                }
+                if 0 < a && a < b && b < $N {
+                    $fl.inner_slice = true;
+                }
+                if a == b {
+                    $fl.empty_slice = true;
+                }
+                b += 1;
+            }
+            a += 1;
+        }
+    }};
+}
+
+// ---------------------------------------------------------------------------------------------
+// (b) end-to-end witnesses
+// ---------------------------------------------------------------------------------------------
+
+/// identical f64 results: same bits, or both NaN (the null)
+pub fn same_f64(a: f64, b: f64) -> bool {
+    a.to_bits() == b.to_bits() || (a != a && b != b)
+}
+
+/// Option<i32> data whose sums cannot overflow (|x| < 2^20; the overflow panic of an i32 running sum is
+/// not a backend question)
+pub fn any_opt_small<const N: usize>() -> [Option<i32>; N] {
+    let x: [Option<i32>; N] = kani::any();
+    let mut i = 0;
+    while i < N {
+        if let Some(v) = x[i] {
+            kani::assume(v > -(1 << 20) && v < (1 << 20));
+        }
+        i += 1;
+    }
+    x
+}
+
+/// window in 1..=N+2, min_periods None or Some(0..=N+2)
+pub fn any_params<const N: usize>() -> (usize, Option<usize>) {
+    let w: usize = kani::any();
+    kani::assume(w >= 1 && w <= N + 2);
+    let m: usize = kani::any();
+    kani::assume(m <= N + 2);
+    let mp = if kani::any() { Some(m) } else { None };
+    (w, mp)
+}
+
+pub fn cmp_f64<const N: usize>(a: &Vec<f64>, b: &Vec<f64>) -> bool {
+    assert!(a.len() == N && b.len() == N, "both results have the input length");
+    let mut saw_value = false;
+    let mut i = 0;
+    while i < N {
+        assert!(same_f64(a[i], b[i]), "element-wise identical results from both input containers");
+        saw_value |= a[i] == a[i];
+        i += 1;
+    }
+    saw_value
+}
+
+pub fn e2e_tsvsum_vec_deq<const N: usize>() {
+    let x = any_opt_small::<N>();
+    let (w, mp) = any_params::<N>();
+    let v: Vec<Option<i32>> = x.to_vec();
+    let d = deque_rot(&x[..], 1);
+    let a: Vec<f64> = v.ts_vsum(w, mp);
+    let b: Vec<f64> = d.ts_vsum(w, mp);
+    let val = cmp_f64::<N>(&a, &b);
+    kani::cover!(val && w < N, "a non-null sum with a window shorter than the series");
+}
+
+pub fn e2e_tsvsum_vec_ndrev<const N: usize>() {
+    let x = any_opt_small::<N>();
+    let (w, mp) = any_params::<N>();
+    let v: Vec<Option<i32>> = x.to_vec();
+    let st = nd_rev_storage(&x[..]);
+    let r = st.slice(s![..;-1]);
+    let a: Vec<f64> = v.ts_vsum(w, mp);
+    let b: Vec<f64> = r.ts_vsum(w, mp);
+    let val = cmp_f64::<N>(&a, &b);
+    kani::cover!(val && w < N, "a non-null sum with a window shorter than the series");
+}
+
+pub fn e2e_tsvmin_vec_deq<const N: usize>() {
+    let x: [Option<i32>; N] = kani::any();
+    let (w, mp) = any_params::<N>();
+    let v: Vec<Option<i32>> = x.to_vec();
+    let d = deque_rot(&x[..], 1);
+    let a: Vec<Option<i32>> = v.ts_vmin(w, mp);
+    let b: Vec<Option<i32>> = d.ts_vmin(w, mp);
+    assert!(a.len() == N && b.len() == N, "both results have the input length");
+    let mut val = false;
+    let mut i = 0;
+    while i < N {
+        assert!(a[i] == b[i], "element-wise identical ts_vmin from both input containers");
+        val |= a[i].is_some();
+        i += 1;
+    }
+    kani::cover!(val && w < N, "a non-null minimum with a window shorter than the series");
+}
+
+fn any_lag<const N: usize>() -> i32 {
+    let n: i32 = kani::any();
+    kani::assume(n >= -(N as i32) - 1 && n <= N as i32 + 1);
+    n
+}
+
+pub fn e2e_vshift_vec_deq<const N: usize>() {
+    let x: [Option<i32>; N] = kani::any();
+    let n = any_lag::<N>();
+    let v: Vec<Option<i32>> = x.to_vec();
+    let d = deque_rot(&x[..], 1);
+    let a: Vec<Option<i32>> = v.titer().vshift(n, None).collect_trusted_to_vec();
+    let c: Vec<Option<i32>> = d.titer().vshift(n, None).collect_trusted_to_vec();
+    assert!(a.len() == N && c.len() == N, "both shifted results have the input length");
+    let mut i = 0;
+    while i < N {
+        assert!(a[i] == c[i], "vshift identical for Vec and wrapped VecDeque");
+        i += 1;
+    }
+    kani::cover!(n > 0 && (n as usize) < N, "forward shift inside the series");
+    kani::cover!(n < 0 && ((-n) as usize) < N, "backward shift inside the series");
+}
+
+pub fn e2e_vshift_vec_nd2<const N: usize>() {
+    let x: [Option<i32>; N] = kani::any();
+    let n = any_lag::<N>();
+    let v: Vec<Option<i32>> = x.to_vec();
+    let st = nd_step_storage(&x[..], 2);
+    let r = st.slice(s![..;2]);
+    let a: Vec<Option<i32>> = v.titer().vshift(n, None).collect_trusted_to_vec();
+    let b: Vec<Option<i32>> = r.titer().vshift(n, None).collect_trusted_to_vec();
+    assert!(a.len() == N && b.len() == N, "both shifted results have the input length");
+    let mut i = 0;
+    while i < N {
+        assert!(a[i] == b[i], "vshift identical for Vec and strided ndarray view");
+        i += 1;
+    }
+    kani::cover!(n > 0 && (n as usize) < N, "forward shift inside the series");
+    kani::cover!(n < 0 && ((-n) as usize) < N, "backward shift inside the series");
+}
+
+pub fn e2e_agg<const N: usize>() {
+    let x = any_opt_small::<N>();
+    let v: Vec<Option<i32>> = x.to_vec();
+    let d = deque_rot(&x[..], 1);
+    let st = nd_rev_storage(&x[..]);
+    let r = st.slice(s![..;-1]);
+    let st2 = nd_step_storage(&x[..], 2);
+    let r2 = st2.slice(s![..;2]);
+    let arc = Arc::new(x.to_vec());
+    let (s0, m0) = (v.titer().vsum(), v.titer().vmax());
+    assert!(x.titer().vsum() == s0 && x.titer().vmax() == m0, "vsum/vmax identical for [T; N]");
+    assert!(d.titer().vsum() == s0 && d.titer().vmax() == m0, "vsum/vmax identical for a wrapped VecDeque");
+    assert!(r.titer().vsum() == s0 && r.titer().vmax() == m0, "vsum/vmax identical for a reversed ndarray view");
+    assert!(r2.titer().vsum() == s0 && r2.titer().vmax() == m0, "vsum/vmax identical for a strided ndarray view");
+    assert!(arc.titer().vsum() == s0 && arc.titer().vmax() == m0, "vsum/vmax identical for Arc<Vec>");
+    kani::cover!(s0.is_some() && m0 != s0, "a sum over several valid elements");
+    kani::cover!(s0.is_none(), "all null");
+}
+
+/// `ts_vsum` returned in output container O and written into an uninitialised O buffer: both equal the returned
+/// Vec<f64> (one harness per output container type; `rd` reads element i of O).
+macro_rules! e2e_out_tsvsum {
+    ($name:ident, $O:ty, $retmsg:literal, $nonemsg:literal, $tomsg:literal) => {
+        pub fn $name<const N: usize>() {
+            let x = any_opt_small::<N>();
+            let (w, mp) = any_params::<N>();
+            let v: Vec<Option<i32>> = x.to_vec();
+            let r0: Vec<f64> = v.ts_vsum(w, mp);
+            assert!(r0.len() == N, "returned Vec has the input length");
+            let ro: $O = v.ts_vsum(w, mp);
+            let mut buf = <$O as Vec1<f64>>::uninit(N);
+            let none = v.ts_vsum_to::<$O, f64>(w, mp, Some(<$O as Vec1<f64>>::uninit_ref_mut(&mut buf)));
+            assert!(none.is_none(), $nonemsg);
+            let wo: $O = unsafe { buf.assume_init() };
+            assert!(ro.len() == N && wo.len() == N, "every output has the input length");
+            let mut val = false;
+            let mut i = 0;
+            while i < N {
+                assert!(same_f64(ro[i], r0[i]), $retmsg);
+                assert!(same_f64(wo[i], r0[i]), $tomsg);
+                val |= r0[i] == r0[i];
+                i += 1;
+            }
+            kani::cover!(val && w < N, "a non-null sum with a window shorter than the series");
+        }
+    };
+}
+e2e_out_tsvsum!(e2e_out_tsvsum_vec, Vec<f64>, "second returned Vec equals returned Vec",
+                "nothing is returned when the result goes to the caller's Vec buffer", "Vec buffer written via _to equals returned Vec");
+e2e_out_tsvsum!(e2e_out_tsvsum_deq, VecDeque<f64>, "returned VecDeque equals returned Vec",
+                "nothing is returned when the result goes to the caller's VecDeque buffer", "VecDeque buffer written via _to equals returned Vec");
+e2e_out_tsvsum!(e2e_out_tsvsum_nd, Array1<f64>, "returned Array1 equals returned Vec",
+                "nothing is returned when the result goes to the caller's Array1 buffer", "Array1 buffer written via _to equals returned Vec");
+
+/// `rolling_apply` with a stateless pairing callback: returned vs `Some(out)` for the three output containers.
+pub fn e2e_out_apply<const N: usize>() {
+    let x: [i32; N] = kani::any();
+    let w: usize = kani::any();
+    kani::assume(w >= 1 && w <= N + 2);
+    let v: Vec<i32> = x.to_vec();
+    let f = |rm: Option<i32>, e: i32| (rm, e);
+    type P = (Option<i32>, i32);
+    let r0: Vec<P> = v.rolling_apply(w, f, None).unwrap();
+    let rd: VecDeque<P> = v.rolling_apply(w, f, None).unwrap();
+    let rn: Array1<P> = v.rolling_apply(w, f, None).unwrap();
+    let mut bv = <Vec<P> as Vec1<P>>::uninit(N);
+    let none = v.rolling_apply::<Vec<P>, _, _>(w, f, Some(<Vec<P> as Vec1<P>>::uninit_ref_mut(&mut bv)));
+    assert!(none.is_none(), "rolling_apply returns None when writing to a Vec buffer");
+    let wv: Vec<P> = unsafe { bv.assume_init() };
+    let mut bd = <VecDeque<P> as Vec1<P>>::uninit(N);
+    let none = v.rolling_apply::<VecDeque<P>, _, _>(w, f, Some(<VecDeque<P> as Vec1<P>>::uninit_ref_mut(&mut bd)));
+    assert!(none.is_none(), "rolling_apply returns None when writing to a VecDeque buffer");
+    let wd: VecDeque<P> = unsafe { bd.assume_init() };
+    let mut bn = <Array1<P> as Vec1<P>>::uninit(N);
+    let none = v.rolling_apply::<Array1<P>, _, _>(w, f, Some(<Array1<P> as Vec1<P>>::uninit_ref_mut(&mut bn)));
+    assert!(none.is_none(), "rolling_apply returns None when writing to an Array1 buffer");
+    let wn: Array1<P> = unsafe { bn.assume_init() };
+    assert!(r0.len() == N && rd.len() == N && rn.len() == N && wv.len() == N && wd.len() == N && wn.len() == N,
+            "every output has the input length");
+    let mut steady = false;
+    let mut i = 0;
+    while i < N {
+        assert!(rd[i] == r0[i], "rolling_apply: returned VecDeque equals returned Vec");
+        assert!(rn[i] == r0[i], "rolling_apply: returned Array1 equals returned Vec");
+        assert!(wv[i] == r0[i], "rolling_apply: Vec buffer equals returned Vec");
+        assert!(wd[i] == r0[i], "rolling_apply: VecDeque buffer equals returned Vec");
+        assert!(wn[i] == r0[i], "rolling_apply: Array1 buffer equals returned Vec");
+        steady |= r0[i].0.is_some();
+        i += 1;
+    }
+    kani::cover!(steady && w > 1, "an element leaves a window longer than one");
+}
+
+include!("c07_gen.rs");
